@@ -11,4 +11,5 @@ MODULES = [
     "hierarchy",
     "attribution",
     "compare",
+    "variantmatcher",
 ]
